@@ -10,6 +10,8 @@ import re
 import tokenize
 
 from .. import oracle as O
+from .. import battery as B
+from ..explore import warm_caches
 from ..core import CaseTimeout, deadline
 from ..programs import PROGRAMS as BASE
 
@@ -56,7 +58,11 @@ MBML = [  # multi-line trivia whose first line has multi-byte text before the ga
 GENERIC = [  # decorated PEP 695 generics: decorators, type parameters and arguments all live in the header
     "@functools.cache\ndef first[T, U: int](a: T) -> U: pass\n@d\nclass K[T, *V](B): pass",
 ]
-PROGS = BASE[:46] + EXTRA + BASE[46:] + FSTR + MBML + GENERIC  # positional case ids: later additions go to the end
+NESTED1 = [  # blocks written on one line inside blocks: the trailing comment of the line belongs to the extent of each of them
+    "if a:\n    if b: c   \nx\n",
+    "def f():\n    for i in j:\n        while k: l = [m]  \n    return n  ",
+]
+PROGS = BASE[:46] + EXTRA + BASE[46:] + FSTR + MBML + GENERIC + NESTED1  # positional case ids: later additions go to the end
 for _p in PROGS:
     ast.parse(_p)
 
@@ -142,6 +148,7 @@ def run_case(fst, pi, hist, res):
         ln, col = off2lc(cur, o1)
         eln, ecol = off2lc(cur, o2)
         res.transitions += 1
+        warm_caches(root)  # every cacheable question has been asked before the edit: what is cached has to follow the edit
         try:
             with deadline(10):
                 tgt = innermost(root, ln, col, eln, ecol)
@@ -167,6 +174,11 @@ def run_case(fst, pi, hist, res):
             res.fail(cid, 'positions-differ-from-full-parse',
                      f'src={cur!r}\nspot=[{o1}:{o2}] {ln},{col}..{eln},{ecol} text={text!r} target={tgt!r}\nnew={new!r}\n'
                      + O.first_diff(got, O.dump_pos(want)), {'prog': pi}, rep)
+            return
+        stale = B.diff(B.battery(root, ('loc', 'pars', 'src')), B.battery(fst.FST(new, 'exec'), ('loc', 'pars', 'src'), reverse=True))
+        if stale:
+            res.fail(cid, 'query-differs-from-fresh-tree-after-offset-edit',
+                     f'src={cur!r}\nspot=[{o1}:{o2}] text={text!r} target={tgt!r}\nnew={new!r}\n' + '\n'.join(stale), {'prog': pi}, rep)
             return
         res.state(new)
         cur = new
